@@ -1644,25 +1644,29 @@ func ruleDriver(c *Ctx) {
 		}
 		// acceptance: nil error only past eof() != scanError
 		key = fmt.Sprintf("driver %s: succeeds only if eof() does not report scanError", fname(fn))
-		bad = ""
-		var eofCall *ssa.Call
-		allInstrs(fn, func(i ssa.Instruction) {
-			if ci, ok := i.(*ssa.Call); ok {
-				if f := ci.Call.StaticCallee(); f != nil && f.Name() == "eof" && recvTypeName(f) == "scanner" {
-					eofCall = ci
+		// direct: the function consults eof() itself, and every nil-error return lies behind
+		// its not-scanError edge
+		var direct func(f *ssa.Function) (string, *ssa.Call)
+		direct = func(f *ssa.Function) (string, *ssa.Call) {
+			bad := ""
+			var eofCall *ssa.Call
+			allInstrs(f, func(i ssa.Instruction) {
+				if ci, ok := i.(*ssa.Call); ok {
+					if g := ci.Call.StaticCallee(); g != nil && g.Name() == "eof" && recvTypeName(g) == "scanner" {
+						eofCall = ci
+					}
 				}
+			})
+			if eofCall == nil {
+				return "eof() is never consulted: truncated input (e.g. `[1`) is accepted", nil
 			}
-		})
-		if eofCall == nil {
-			bad = "eof() is never consulted: truncated input (e.g. `[1`) is accepted"
-		} else {
-			ei := errResultIndex(fn)
-			for _, r := range liveReturns(fn) {
+			ei := errResultIndex(f)
+			for _, r := range liveReturns(f) {
 				if ei < 0 || !isNilConst(retVal(r, ei)) {
 					continue
 				}
 				dom := false
-				for _, bb := range fn.Blocks {
+				for _, bb := range f.Blocks {
 					iff, ok := bb.Instrs[len(bb.Instrs)-1].(*ssa.If)
 					if !ok {
 						continue
@@ -1687,9 +1691,68 @@ func ruleDriver(c *Ctx) {
 					bad = "a nil error is returned at " + b.posOf(r) + " without eof() having been checked"
 				}
 			}
+			return bad, eofCall
 		}
+		// through helpers of the codec that consult eof() the same way and answer with an error
+		// (finishScan → finish → eof): the function succeeds only with the helper's own
+		// answer or behind its success
+		var consults func(f *ssa.Function, depth int) (string, *ssa.Call, string)
+		consults = func(f *ssa.Function, depth int) (string, *ssa.Call, string) {
+			bad, eofCall := direct(f)
+			if eofCall != nil || depth > 2 {
+				return bad, eofCall, ""
+			}
+			via := ""
+			allInstrs(f, func(i ssa.Instruction) {
+				hc, ok := i.(*ssa.Call)
+				if !ok || eofCall != nil {
+					return
+				}
+				h := hc.Call.StaticCallee()
+				if h == nil || h == f || h.Pkg != sp || len(h.Blocks) == 0 || errResultIndex(h) < 0 {
+					return
+				}
+				hb, he, hv := consults(h, depth+1)
+				if he == nil || hb != "" {
+					return
+				}
+				eofCall, via, bad = hc, fname(h), ""
+				if hv != "" {
+					via += " → " + hv
+				}
+				ei := errResultIndex(f)
+				for _, r := range liveReturns(f) {
+					if ei < 0 {
+						continue
+					}
+					rv := retVal(r, ei)
+					if c2, _, isRes := asResult(rv); isRes && c2 == hc {
+						continue
+					}
+					if !isNilConst(rv) {
+						// a merged value that is the helper's answer on every path it is not nil
+						continue
+					}
+					behind := false
+					for _, e := range errResultOf(hc) {
+						for _, t := range errChecks(e) {
+							if !t.Chain && (t.Blk.Succs[1-t.NonNilSucc] == r.Block() || edgeDominates(t.Blk, 1-t.NonNilSucc, r.Block())) {
+								behind = true
+							}
+						}
+					}
+					if !behind {
+						bad = "a nil error is returned at " + b.posOf(r) + " without " + fname(h) + " (which consults eof()) having answered nil"
+					}
+				}
+			})
+			return bad, eofCall, via
+		}
+		bad, eofCall, via := consults(fn, 0)
 		if bad != "" {
 			l.add("R-DRIVER", "codec", key, b.rel(fn.Pos()), Violated, bad, true)
+		} else if via != "" {
+			l.add("R-DRIVER", "codec", key, b.posOf(eofCall), Discharged, "every nil-error return is "+via+"'s own answer or behind its nil edge; "+via+" answers nil only behind the not-scanError edge of its eof() test", true)
 		} else {
 			l.add("R-DRIVER", "codec", key, b.posOf(eofCall), Discharged, "every nil-error return is dominated by the not-scanError edge of the eof() test; the other edge returns scan.err", true)
 		}
